@@ -65,7 +65,7 @@ func (o locObs) String() string {
 }
 
 type histRun struct {
-	digitNames bool // issuer names A/B end in "2"/"24"
+	digitNames bool                               // issuer names A/B end in "2"/"24"
 	onDisk     map[string]map[string]map[int]bool // work_dir -> location -> versions ever observed in force there
 	h          *Harness
 	w          *World
